@@ -31,6 +31,7 @@ RULE = ("exhaustive: every assignment of the 7 per-variable bound kinds (-inf,-i
         "constraints (1-3 rows) and non-linear constraints (1-3) of all kinds (now and then (+inf,+inf) / (-inf,-inf)), "
         "tolerances None/0/1e-10/dyadic/negative with values exactly tolerance away from a bound, variable scalers (scales "
         "and/or offsets) and non-linear constraint scalers (each alone and together), the same object transformed twice, "
+        "the scaler object validating another configuration (same row count, other row scalings) first, "
         "a full-precision (53-bit) stream, missing function values; and end-to-end runs -- evaluator step, optimizer step "
         "(scripted optimizer) and BasicOptimizer (configuration dict or validated EnOptConfig) -- that deliver 1-4 function "
         "results as single vectors and 2-D batches over one or several evaluations, some without function values (failed "
@@ -199,7 +200,8 @@ def _sampled_case(rng, full=False, kind="direct"):
         nl = {"c": c, "lb": nlb, "ub": nub}
         pass_cons = rng.random() < 0.9 or kind == "plan"
     tr = _rand_transform(rng, V, len(nl["c"]) if nl else 0)
-    return _base(x, lb, ub, kind=kind, lin=lin, nl=nl, pass_cons=pass_cons, tol=tol, tr=tr,
+    reuse = tr is not None and tr["var"] and lin is not None and rng.random() < 0.4
+    return _base(x, lb, ub, kind=kind, lin=lin, nl=nl, pass_cons=pass_cons, tol=tol, tr=tr, reuse=reuse,
                  _tag="full" if full else ("plan" if kind == "plan" else "sampled"))
 
 
@@ -290,6 +292,19 @@ def _make_transforms(case):
     return OptModelTransforms(variables=var, nonlinear_constraints=nl)
 
 
+def _validate_decoy(case, transforms):
+    """The same scaler object first validates another configuration whose linear constraints have the same number of
+    rows but other row scalings (a transforms object may serve several configurations one after the other)."""
+    from ropt.config.enopt import EnOptConfig
+    if not case.get("reuse") or transforms is None or transforms.variables is None or case["lin"] is None:
+        return
+    d = _config_dict(case)
+    lin = case["lin"]
+    d["linear_constraints"] = {"coefficients": [[a * (3.0 + i) for a in r] for i, r in enumerate(lin["A"])],
+                               "lower_bounds": list(lin["lb"]), "upper_bounds": list(lin["ub"])}
+    EnOptConfig.model_validate(d, context=transforms)
+
+
 def _config_dict(case):
     d = {"variables": {"initial_values": list(case["x"]), "lower_bounds": list(case["lb"]),
                        "upper_bounds": list(case["ub"])}}
@@ -340,6 +355,7 @@ def _run_direct(case):
     from ropt.plugins.plan._utils import _violates_constraint
     from ropt.results import ConstraintInfo
     transforms = _make_transforms(case)
+    _validate_decoy(case, transforms)
     config = EnOptConfig.model_validate(_config_dict(case), context=transforms)
     x = np.array(case["x"], dtype=float)
     y = x if transforms is None or transforms.variables is None else transforms.variables.to_optimizer(x)
@@ -388,6 +404,7 @@ def _run_plan(case):
     from ropt.plugins.plan._utils import _violates_constraint
     from ropt.results import FunctionResults
     transforms = _make_transforms(case)
+    _validate_decoy(case, transforms)
     nl, level = case["nl"], case.get("level", "evalstep")
     pts = _plan_points(case)
     X = np.array([p["x"] for p in pts], dtype=float)
@@ -776,7 +793,7 @@ def features(case, obs):
             "nonlinear": 0 if case["nl"] is None else len(case["nl"]["c"]),
             "mixed_infinite_both_sides": mixed,
             "transform": "none" if tr is None else "+".join(k for k in ("scales", "offsets", "nl_scales") if tr[k] is not None),
-            "tol": str(case["tol"]), "infeasible": bool(obs.get("violates")), "info": obs.get("info") is not None}
+            "scaler_served_another_config_before": bool(case.get("reuse")), "tol": str(case["tol"]), "infeasible": bool(obs.get("violates")), "info": obs.get("info") is not None}
 
 
 def known_signature(case, obs, violation):
@@ -802,6 +819,8 @@ def _drop_var(case, i):
 def shrink(case):
     if case["tr"] is not None:
         yield {**case, "tr": None}
+    if case.get("reuse"):
+        yield {**case, "reuse": False}
     if case["lin"] is not None:
         yield {**case, "lin": None}
     if case["nl"] is not None and case["nl"]["lb"] is not None:
